@@ -21,8 +21,8 @@ CASE_TIMEOUT = 4.0
 class RSource:
   """a plain input iterator (resumable after an exception, like map/zip objects)"""
 
-  def __init__(self, items, ret, rng):
-    self.items, self.ret, self.i, self.rng = list(items), ret, 0, rng
+  def __init__(self, items, rets, rng):
+    self.items, self.rets, self.i, self.rng = list(items), list(rets), 0, rng
 
   def __iter__(self):
     return self
@@ -35,7 +35,7 @@ class RSource:
     elif r < 0.4:
       time.sleep(0.0003)
     if self.i >= len(self.items):
-      raise StopIteration(self.ret)
+      raise StopIteration(*self.rets)
     it = self.items[self.i]
     self.i += 1
     if it == 'fail':
@@ -63,7 +63,7 @@ def observe(case):
     return p
 
   def body():
-    sources = [RSource(items, 900 + i, rng) for i, items in enumerate(case['inputs'])]
+    sources = [RSource(items, lp.source_rets(case, i), rng) for i, items in enumerate(case['inputs'])]
     it, mux, q = lp.build(case, iter_utils, sources, pool_of)
     res['q'] = q
     got = res['got'] = []
